@@ -87,7 +87,7 @@ class SymExec:
     structurally comparable.
     """
 
-    def __init__(self, prog=None, cls=None, leaf=None, call=None, max_inline=4, fresh_calls=(), boundary=False):
+    def __init__(self, prog=None, cls=None, leaf=None, call=None, max_inline=4, fresh_calls=(), boundary=True):
         self.boundary = boundary    # keep comparisons that are decided only by the positivity of a state/parameter value (see x_Compare)
         self.prog = prog
         self.cls = cls
@@ -621,6 +621,26 @@ def equal(a, b, seed=1, n=6):
     a, b = sp.sympify(a), sp.sympify(b)
     if a == b:
         return True, None
+    # a branch taken on a thin set (`Piecewise((e, Eq(n, 1)), ...)`) is never hit by random sampling: compare it on that set
+    for side in (a, b):
+        for pw in sorted(side.atoms(sp.Piecewise), key=lambda x: len(str(x))):
+            for expr, cond in pw.args:
+                eqs = [cond] if isinstance(cond, sp.Eq) else ([c for c in cond.args if isinstance(c, sp.Eq)] if isinstance(cond, sp.And) else [])
+                sub = {}
+                for e in eqs:
+                    if e.rhs.is_number and not e.lhs.is_number:
+                        sub[e.lhs] = e.rhs
+                    elif e.lhs.is_number and not e.rhs.is_number:
+                        sub[e.rhs] = e.lhs
+                if sub:
+                    a2, b2 = a.xreplace({pw: expr}).xreplace(sub), b.xreplace({pw: expr}).xreplace(sub)
+                    if a2.atoms(sp.Piecewise) == a.atoms(sp.Piecewise) and b2.atoms(sp.Piecewise) == b.atoms(sp.Piecewise):
+                        continue
+                    ok_, wit_ = equal(a2, b2, seed=seed, n=n)
+                    if not ok_:
+                        wit_ = dict(wit_ or {})
+                        wit_['on'] = ', '.join('%s = %s' % kv for kv in sub.items())
+                        return False, wit_
     wit = None
     agree = 0
     for p in numeric_points([a, b], n=n, seed=seed):
